@@ -101,6 +101,7 @@ type prop struct {
 	root    string
 	cache   sync.Map // line -> core.Outcome, filled by Generate's worker pool
 	nextDir atomic.Int64
+	slow    atomic.Int64 // cases in which a due forgetter did not run / a request hung
 	stats   struct {
 		sync.Mutex
 		retimed int
@@ -408,14 +409,15 @@ type kase struct {
 	maxInflight int64
 	arrived     sync.Map // stress: request id -> chan struct{} closed when the backend has the request
 
-	shadow      []*shadowFail
-	dueTotal    []int
-	failures    []core.Failure
-	tags        map[string]bool
-	badSeen     bool   // a B step happened (narrows the known-finding class)
-	done        []step // steps executed so far
-	lastCounted int    // failures counted during the last step
-	infra       string
+	shadow         []*shadowFail
+	dueTotal       []int
+	failures       []core.Failure
+	tags           map[string]bool
+	badSeen        bool   // a B step happened (narrows the known-finding class)
+	done           []step // steps executed so far
+	lastCounted    int    // failures counted during the last step
+	forgetTimedOut bool   // a due forgetter did not run within the settle wait
+	infra          string
 }
 
 func (k *kase) onCount(h *reverseproxy.Host, kind int, delta int, result int64) {
@@ -637,7 +639,11 @@ func (k *kase) unload(c *cfgGen) {
 }
 
 func (k *kase) waitReq(r *reqSt) string {
-	timeout := time.After(8 * time.Second)
+	wait := 8 * time.Second
+	if k.p.slow.Load() >= 3 {
+		wait = time.Second
+	}
+	timeout := time.After(wait)
 	for {
 		select {
 		case e := <-k.ev:
@@ -653,6 +659,7 @@ func (k *kase) waitReq(r *reqSt) string {
 			return e.result
 		case <-timeout:
 			k.infra = fmt.Sprintf("request %d neither parked nor returned", r.id)
+			k.p.slow.Add(1)
 			r.parked, r.done = false, true
 			return "hang"
 		}
@@ -716,7 +723,16 @@ func (k *kase) settle(c *cfgGen) {
 			}
 		}
 	}
-	deadline := time.Now().Add(4 * time.Second)
+	// a forgetter that is due runs within microseconds; wait generously, but once forgetters have
+	// failed to show up the failure is established and there is no point in waiting long again
+	wait := 4 * time.Second
+	if k.p.slow.Load() >= 3 {
+		wait = 150 * time.Millisecond
+	}
+	if k.forgetTimedOut {
+		wait = 20 * time.Millisecond
+	}
+	deadline := time.Now().Add(wait)
 	k.mu.Lock()
 	for {
 		ok := true
@@ -725,7 +741,14 @@ func (k *kase) settle(c *cfgGen) {
 				ok = false
 			}
 		}
-		if ok || time.Now().After(deadline) {
+		if ok {
+			break
+		}
+		if time.Now().After(deadline) {
+			if !k.forgetTimedOut {
+				k.forgetTimedOut = true
+				k.p.slow.Add(1)
+			}
 			break
 		}
 		k.mu.Unlock()
